@@ -2524,6 +2524,12 @@ impl<'a> Socket<'a> {
                 // would rearm the timer: probe the window instead.
                 let delay = self.rtte.retransmission_timeout();
                 self.timer.set_for_zero_window_probe(cx.now(), delay);
+            } else if self.pending_fast_retransmit && self.tx_buffer.is_empty() {
+                // Only a FIN is outstanding, there is no data segment to fast
+                // retransmit: keep waiting for the retransmission timeout.
+                self.pending_fast_retransmit = false;
+                let rto = self.rtte.retransmission_timeout();
+                self.timer.set_for_retransmit(cx.now(), rto);
             } else {
                 self.timer.set_for_idle(cx.now(), self.keep_alive);
             }
